@@ -19,10 +19,11 @@ PROP = "C18"
 GEN_REGIONS: List[str] = []
 THEOREMS = {
     "SpecKitV.Lemmas.Bilinear": ["bilinear_section", "bilinear_dc", "bilinear_nyquist"],
-    # --- TO BE ENABLED once /verif/lean/SpecKitV/Lemmas/FftNoise.lean exists and builds (checked at hand-over: see final report) ---
-    # "SpecKitV.Lemmas.FftNoise": ["fftnoise_hermitian", "fftnoise_dc_real", "fftnoise_nyquist_real", "fftnoise_magnitude_pos",
-    #                              "fftnoise_magnitude_neg", "fftnoise_zero_bins", "hermitian_idft_real", "fftnoise_series_real",
-    #                              "bandMask_symm", "fftfreqAbs_symm", "fftfreqAbs_eq", "sectionCorners_ratio", "sectionCorners_step"],
+    # FFT synthesiser index logic, band mask, corner placement (file present and building at hand-over; names are the ones it contains)
+    "SpecKitV.Lemmas.FftNoise": ["fftnoise_hermitian", "fftnoise_dc_real", "fftnoise_nyquist_real", "fftnoise_magnitude_pos",
+                                 "fftnoise_magnitude_neg", "fftnoise_dc_magnitude", "fftnoise_nyquist_magnitude", "fftnoise_zero_bins",
+                                 "hermitian_idft_real", "fftnoise_series_real", "bandMask_symm", "bandMask_iff", "fftfreqAbs_symm",
+                                 "fftfreqAbs_eq", "sectionCorners_ratio", "sectionCorners_step"],
 }
 CONTRACTS = [
     "np.fft.ifft / np.fft.fft are the inverse / forward DFT (unnormalised forward, 1/N inverse) up to rounding c*u*log2(N)*||F||_2",
